@@ -162,6 +162,10 @@ def gen_message(r, force=None):
         params.update(force)           # (C04: connection-level parameters are fixed per case)
     framing = r.choice(['length'] * 5 + ['chunked'] * 5 + ['close'] * 2 + ['nobody'] * 2 + ['both'])
     status = r.choice([200] * 6 + [404, 301, 206, 500, 201, 203])
+    if r.random() < .3:
+        # every class of final status code may carry a message body (only 1xx, 204, 304 and answers to HEAD may not)
+        status = r.choice([202, 205, 205, 207, 226, 300, 302, 303, 307, 308, 400, 401, 403, 410, 418, 429, 451, 502, 503,
+                           r.randrange(200, 600), r.randrange(200, 1000)])
     if framing == 'nobody':
         status = r.choice([204, 304, 204, 304, 100, 101, 199, 200])
         if status == 200:
